@@ -66,7 +66,7 @@ int main(void)
 {
 	br_ssl_engine_context store;
 #ifdef NATIVE_REPLAY
-	memset(&store, 0, sizeof store);
+	NATIVE_FILL(&store, sizeof store);
 #endif
 	rcp = &store;
 	size_t ilen = ND_SIZE(), olen = ND_SIZE();
